@@ -135,7 +135,19 @@ def execute(spec):
     elif len(p0) != n:
         viols.append({"property": "C14", "invariant": "selection_vector_shape", "msg": f"component pick over {len(p0)} options for {n} components",
                       "features": feats, "input": text})
+    elif constant and _pick_to_component(picks, n) is None:
+        # the option taken does not determine which component is generated (one option led to two different components):
+        # the selection vector says nothing about composition; the realised shares are judged instead
+        stats["pick_does_not_determine_component"] = 1
+        spec = dict(spec)
+        spec["mode"] = "outcome"
     elif constant:
+        # option k of the pick may stand for another component than the k-th written one (a reordered option list is legal):
+        # the vector is re-indexed by the component that was really generated after each pick
+        mapping = _pick_to_component(picks, n)
+        if mapping != list(range(n)):
+            stats["pick_options_reordered"] = 1
+        p0 = [p0[mapping.index(c)] for c in range(n)]
         share = np.array(p0) * np.array(m)
         share = share / share.sum()
         dev = max(abs(s - f) for s, f in zip(share, fr))
@@ -181,6 +193,25 @@ def execute(spec):
     sample = {"system": text, "declared_fractions": [round(x, 4) for x in fr], "member_masses": [round(x, 2) for x in m],
               "selection_vector": [round(x, 4) for x in p0] if picks else None, "members": len(members), "mode": spec["mode"]}
     return {"violations": viols, "stats": stats, "sig": sig_h, "nontrivial": nontrivial, "sample": sample, "digest": r["digest"], "trace": None}
+
+
+def _pick_to_component(picks, n):
+    """option index -> component generated after it, from the observed (vector, option, component, mass) records.
+    None if one option led to different components or two options to the same one; options never taken are filled in
+    in written order."""
+    mapping = {}
+    for (_, i, comp, _) in picks:
+        if comp is None:
+            continue
+        if mapping.setdefault(int(i), comp) != comp:
+            return None
+    if len(set(mapping.values())) != len(mapping):
+        return None
+    free_opts = [k for k in range(n) if k not in mapping]
+    free_comps = [c for c in range(n) if c not in mapping.values()]
+    for k, c in zip(free_opts, free_comps):
+        mapping[k] = c
+    return [mapping[k] for k in range(n)]
 
 
 def _scale(text, sysw, scale):
